@@ -111,3 +111,8 @@ Theorem C15_sample_scalars : forall st n, Forall canon st -> length st = 16%nat 
     st' = snd (squeeze_n ((3 * n + 9) / 10) st).
 Proof. exact sample_scalars_spec. Qed.
 Print Assumptions C15_sample_scalars.
+
+Theorem C15_scalar_squeezes_minimal : forall n,
+  (3 * n <= 10 * ((3 * n + 9) / 10))%nat /\ forall k', (k' < (3 * n + 9) / 10)%nat -> (10 * k' < 3 * n)%nat.
+Proof. exact scalar_squeezes_minimal. Qed.
+Print Assumptions C15_scalar_squeezes_minimal.
